@@ -292,6 +292,11 @@ def nnx_optimizer(case, ctx):
           for a, b in zip(got_s, jax.tree_util.tree_leaves(s_ref))),
           lambda: f'opt_state after step {i + 1} differs from the optax loop '
           f'({case["tx"]})')
+      require([str(jnp.asarray(a).dtype) for a in got_s] == dtypes(s_ref),
+              lambda: f'opt_state after step {i + 1} has dtypes '
+              f'{[str(jnp.asarray(a).dtype) for a in got_s]}, tx.update by '
+              f'hand gives {dtypes(s_ref)} (params {pdt}, grads '
+              f'{"float32" if case.get("g32", True) else pdt}, {case["tx"]})')
     else:
       grads = jax.tree_util.tree_map(lambda x: x, ts.params)
       nnx.replace_by_pure_dict(grads, g_pure)
@@ -306,6 +311,8 @@ def nnx_optimizer(case, ctx):
       got = nnx.to_pure_dict(ts.params)
       require(close(ts.opt_state, s_ref, tol), lambda: f'opt_state after '
               f'step {i + 1} differs ({case["tx"]})')
+      require(dtypes(ts.opt_state) == dtypes(s_ref), lambda: 'opt_state '
+              f'dtypes {dtypes(ts.opt_state)} != {dtypes(s_ref)}')
     require(jax.tree_util.tree_structure(got) ==
             jax.tree_util.tree_structure(p_ref) and close(got, p_ref, tol),
             lambda: f'selected Variables after step {i + 1} differ from the '
